@@ -495,6 +495,10 @@ func (c *Ctx) c19ItemsFollowIndex() {
 			n++
 			okA := fromForward(args[len(args)-1], 0)
 			okB := deletesItems(fn)
+			if !okA && !okB {
+				// the removed set travels in a context struct (cleanup.own): decided per way the function is reached
+				okA = c.c19SetOK(fn, args[len(args)-1], fromForward, deletesItems, 0)
+			}
 			top := fn
 			for top.Parent() != nil {
 				top = top.Parent()
@@ -505,4 +509,94 @@ func (c *Ctx) c19ItemsFollowIndex() {
 		}
 	}
 	r.Floor("R19.7", "removals from per-account nonce indices", n, 1)
+}
+
+// c19SetOK: the set v handed to the nonce-index removal in fn is, on every way fn is reached, either the result of
+// forward() or removed from items by the function that built it. v may be a field of a context struct that fn
+// receives (parameter / receiver, also as receiver of a method value).
+func (c *Ctx) c19SetOK(fn *ssa.Function, v ssa.Value, fromForward func(ssa.Value, int) bool, deletesItems func(*ssa.Function) bool, depth int) bool {
+	if depth > 3 {
+		return false
+	}
+	if fromForward(v, 0) || deletesItems(fn) {
+		return true
+	}
+	u, ok := v.(*ssa.UnOp)
+	if !ok {
+		return false
+	}
+	fa, ok := u.X.(*ssa.FieldAddr)
+	if !ok {
+		return false
+	}
+	par, ok := fa.X.(*ssa.Parameter)
+	if !ok || par.Parent() != fn {
+		return false
+	}
+	pi := -1
+	for i, q := range fn.Params {
+		if q == par {
+			pi = i
+		}
+	}
+	if pi < 0 {
+		return false
+	}
+	// the value of that field in the struct a context hands over
+	fieldOf := func(holder ssa.Value, in *ssa.Function) (ssa.Value, bool) {
+		switch a := core.Strip(holder).(type) {
+		case *ssa.Alloc:
+			for _, rf := range *a.Referrers() {
+				f2, ok := rf.(*ssa.FieldAddr)
+				if !ok || f2.X != ssa.Value(a) || f2.Field != fa.Field {
+					continue
+				}
+				for _, rr := range *f2.Referrers() {
+					if st, ok := rr.(*ssa.Store); ok && st.Addr == ssa.Value(f2) {
+						return st.Val, true
+					}
+				}
+			}
+		case *ssa.Parameter:
+			// handed on: the same field of the caller's own context parameter
+			nf := &ssa.FieldAddr{X: a, Field: fa.Field}
+			return &ssa.UnOp{Op: token.MUL, X: nf}, true
+		}
+		return nil, false
+	}
+	contexts := 0
+	for _, site := range core.StaticSitesOf(fn) {
+		contexts++
+		g := site.Parent()
+		if deletesItems(g) {
+			continue
+		}
+		if pi >= len(site.Common().Args) {
+			return false
+		}
+		val, ok := fieldOf(site.Common().Args[pi], g)
+		if !ok || !c.c19SetOK(g, val, fromForward, deletesItems, depth+1) {
+			return false
+		}
+	}
+	if pi == 0 {
+		for _, recv := range core.BoundReceiversOf(fn) {
+			contexts++
+			var h *ssa.Function
+			if in, ok := recv.(ssa.Instruction); ok {
+				h = in.Parent()
+			}
+			if h == nil {
+				return false
+			}
+			if deletesItems(h) {
+				continue
+			}
+			val, ok := fieldOf(recv, h)
+			if !ok || !c.c19SetOK(h, val, fromForward, deletesItems, depth+1) {
+				return false
+			}
+		}
+	}
+	return contexts > 0
 }
